@@ -1,3 +1,5 @@
+import shlex
+
 from . import builtin
 from .. import platforms, shell
 from ..iterutils import first, isiterable
@@ -42,6 +44,13 @@ def compiler(context, names, lang, strict=False):
     context.env.variables[var] = compiler
 
 
+def _join_options(options):
+    # These variables get read back with `shell.split()`, which (like the
+    # handling of $CFLAGS et al from the real environment) doesn't support
+    # backslash escapes; `pshell.join()` would emit `'\''` for a single quote.
+    return ' '.join(shlex.quote(i) for i in options)
+
+
 @builtin.function(context='toolchain')
 def compile_options(context, options, lang):
     # This only supports strings (and lists of strings) for options, *not*
@@ -50,7 +59,7 @@ def compile_options(context, options, lang):
     # don't) or we'd have to store the options in some way other than as an
     # environment variable.
     if isiterable(options):
-        options = pshell.join(options)
+        options = _join_options(options)
     context.env.variables[known_langs[lang].var('flags')] = options
 
 
@@ -73,7 +82,7 @@ def link_options(context, options, format='native', mode='dynamic'):
     # As above, this only supports strings (and lists of strings) for options,
     # *not* semantic options.
     if isiterable(options):
-        options = pshell.join(options)
+        options = _join_options(options)
     context.env.variables[known_formats[format][mode].var('flags')] = options
 
 
@@ -82,7 +91,7 @@ def lib_options(context, options, format='native', mode='dynamic'):
     # As above, this only supports strings (and lists of strings) for options,
     # *not* semantic options.
     if isiterable(options):
-        options = pshell.join(options)
+        options = _join_options(options)
     context.env.variables[known_formats[format][mode].var('libs')] = options
 
 
